@@ -102,7 +102,7 @@ Qed.
    and every sale sells a positive number of shares:
    (generated purchases ++ re-emitted rows ++ later rows) is accepted, and
    reports the later rows exactly as the full history does. *)
-Theorem roundtrip_ranges like (hs : list hold_row) latest rg P K T dsP B1 st1 dsK bK stK dsT K' :
+Theorem roundtrip_ranges regof like (hs : list hold_row) latest rg P K T dsP B1 st1 dsK bK stK dsT K' :
   sd_sorted (P ++ K ++ T) ->
   run_part exact [] st0 P (K ++ T) = (dsP, B1, st1, None) ->
   run_part exact B1 st1 K T = (dsK, bK, stK, None) ->
@@ -112,7 +112,8 @@ Theorem roundtrip_ranges like (hs : list hold_row) latest rg P K T dsP B1 st1 ds
   NoDup (map (fun h : hold_row => af_id (fst (fst h))) hs) ->
   Forall (fun h : hold_row => holding_ok (fst (fst h)) (snd (fst h))) hs ->
   ps_all st1 = total_held hs ->
-  (forall af, obs st1 af = held_obs hs af (0, if af_reg af then None else Some 0)) ->
+  (forall af, goodaf regof af -> obs st1 af = held_obs hs af (0, if af_reg af then None else Some 0)) ->
+  Forall (gooddelta regof) (dsK ++ dsT) ->
   Forall (fun h : hold_row => exists d, In d dsP /\ snd h = d_sd d) hs ->
   (forall h d, In h hs -> In d (dsK ++ dsT) -> plain_loss_sell d = true -> within_after (snd h) (d_sd d) = false) ->
   keep_all dsK = Ok K' ->
@@ -123,7 +124,7 @@ Theorem roundtrip_ranges like (hs : list hold_row) latest rg P K T dsP B1 st1 ds
        = map (fun h : hold_row => (s_sh (snd (fst h)), s_acb (snd (fst h)))) hs
     /\ map d_post dsK' = map d_post dsK /\ map d_gain dsK' = map d_gain dsK.
 Proof.
-  intros Hsort HP HK HT Hrg Hl1 Hl2 Hnd HF Htot Hobs Hdated HK1 Hk Hnz Hsp.
+  intros Hsort HP HK HT Hrg Hl1 Hl2 Hnd HF Htot Hobs Hgood Hdated HK1 Hk Hnz Hsp.
   (* the whole run *)
   assert (Hrun : run_loop exact [] st0 (P ++ K ++ T) = (dsP ++ dsK ++ dsT, None)).
   { rewrite run_loop_app, HP, run_loop_app, HK, HT. reflexivity. }
@@ -151,5 +152,5 @@ Proof.
       cbn [hold_tx summary_buy mk_tx t_sd]. exact (HK1 _ d Hh Hd Hp). }
   assert (Hlp0 : lp st0 = ps_all st0) by reflexivity.
   pose proof (run_part_lp _ _ _ _ _ _ _ Hlp0 HP) as Hlp.
-  exact (roundtrip_run like hs K T B1 st1 dsK bK stK dsT K' Hnd HF Htot Hlp Hobs HK HT Hk HW Hnz Hsp).
+  exact (roundtrip_run regof like hs K T B1 st1 dsK bK stK dsT K' Hnd HF Htot Hlp Hobs HK HT Hk HW Hgood Hnz Hsp).
 Qed.
